@@ -160,6 +160,29 @@ func bytesUniverse(t *rapid.T, k Kind, profile string) *universe {
 			}
 			return out
 		}
+	case "textfan":
+		// wide fan-out in a collation tree: one drawn character out of a window of consecutive code
+		// points (Han: 3-byte primaries that differ in the last byte; Cyrillic/Greek/Latin: 2-byte primaries)
+		stem := pick(t, []string{"", "q", "stem-0123456789"}, "tfstem")
+		base := pick(t, []int{0x4E00, 0x4E00, 0x5000, 0x0430, 0x03B1, 'a'}, "tfbase")
+		width := pick(t, []int{6, 20, 60, 120}, "tfw")
+		if base == 0x0430 || base == 0x03B1 || base == 'a' {
+			width = min(width, 24)
+		}
+		suffixes := []string{"", "x", "y"}
+		mk := func(i int, suf string) []byte { return []byte(stem + string(rune(base+i)) + suf) }
+		u.draw = func(t *rapid.T) []byte {
+			return mk(drawInt(t, 0, width-1, "tfi"), pick(t, suffixes, "tfs"))
+		}
+		u.bulk = func(t *rapid.T, n int) [][]byte {
+			var out [][]byte
+			suf := pick(t, suffixes, "tbs")
+			first := drawInt(t, 0, width-1, "tb0")
+			for i := 0; i < n && i < width; i++ {
+				out = append(out, mk((first+i)%width, suf))
+			}
+			return out
+		}
 	case "text":
 		atoms := textAtoms(t, true)
 		stem := ""
@@ -428,7 +451,7 @@ func drawUniverse(t *rapid.T, k Kind, profiles []string) *universe {
 		return compoundUniverse(t, kk)
 	case *collKind:
 		if profiles == nil {
-			profiles = []string{"text", "text", "text", "dense", "deep", "fan"}
+			profiles = []string{"text", "text", "text", "dense", "deep", "fan", "textfan", "textfan"}
 		}
 		return bytesUniverse(t, k, pick(t, profiles, "profile"))
 	}
